@@ -72,6 +72,46 @@ def natural_scale(q, name, v):
     return max(s, 1e-300)
 
 
+def extremum_check(cfg, q, bad, shifted=True):
+    """the three extrema located on the trigonometric interpolant: compared with the minimum of a dense evaluation of that interpolant in the
+    cell around the discrete arg-extremum (what fourier_minimum refines).  With shifted=True the toroidal origin is then moved so that the
+    continuous extremum lies JUST BEFORE phi = 0 (between the last and the first grid point) and the comparison is repeated."""
+    from oracle_sym import shifted_cfg
+    n = 0
+    per = TWO_PI / q.nfp
+    for name, (prof, sign) in EXTREMA.items():
+        if not hasattr(q, name):
+            continue
+        y = -sign * np.asarray(getattr(q, prof), dtype=float)            # a minimisation problem in every case
+        if (np.max(y) - np.min(y)) < 1e-9 * max(abs(np.mean(y)), 1e-300):
+            continue
+        N = len(y)
+        j = int(np.argmin(y))
+        xd = (j + np.linspace(-1.0, 1.0, 4001)) * (per / N)
+        f = trig_eval(y, xd, per)
+        want = float(np.min(f))
+        got = -sign * float(getattr(q, name))
+        n += 1
+        sc = max(float(np.max(np.abs(y))), 1e-300)
+        if abs(got - want) > 1e-7 * sc + 4e-7 * (float(np.max(y)) - float(np.min(y))):
+            bad('extremum:' + name, '%s = %.12g but the extremum of the trigonometric interpolant of %s next to its discrete extremum (index %d of %d) is %.12g'
+                % (name, float(getattr(q, name)), prof, j, N, -sign * want), name=name)
+        if shifted and isinstance(cfg, dict) and q.lasym:
+            xs = xd[int(np.argmin(f))]
+            k = int(np.floor(xs / (per / N))) + 1                        # new origin = first grid point AFTER the continuous extremum
+            k %= N
+            if k == 0:
+                continue
+            try:
+                q2, m2 = build(shifted_cfg(cfg, q, k), shear=False)
+            except Exception:
+                continue
+            if any('Newton solve did not get close' in m for m in m2) or abs(q2.iota - q.iota) > 1e-6 * max(1.0, abs(q.iota)):
+                continue
+            n += extremum_check(None, q2, lambda key, what, **kw: bad(key, what + ' [after moving the origin by %d grid points]' % k, shift=k, **kw), shifted=False)
+    return n
+
+
 # ------------------------------------------------------------------------------------------------------------------------
 # (a) even nphi
 # ------------------------------------------------------------------------------------------------------------------------
@@ -309,6 +349,8 @@ def predict(cfg, rng, q=None, thorough=False, sub=None, stats=None):
     def bad(key, what, **kw):
         out.append(dict(key=key, what=what, cfg=jsonable(cfg), sub=sub, thorough=bool(thorough), **kw))
     n += even_promotion(cfg, r2, bad)
+    if q is not None:
+        n += extremum_check(cfg, q, bad)
     n += ladder_check(cfg, THOROUGH if thorough else QUICK, r2, bad, stats)
     return out, n
 
@@ -340,6 +382,11 @@ def main():
         print(json.dumps(res, default=str)); return
     t0 = time.time(); tried = 0
     nn = a.n if a.mode == 'check' else 10 ** 6
+    for c_, q_ in corpus_objects(histories=False):          # distilled regression inputs first (extrema on the interpolant, incl. origins just after the extremum)
+        vv = []
+        n = extremum_check(c_, q_, lambda key, what, **kw: vv.append(dict(key=key, what=what, cfg=jsonable(c_), **kw)))
+        res['predictions_checked'] += n; res['violations'] += vv; res['configs'] += 1
+        dist['corpus'] = dist.get('corpus', 0) + 1
     while tried < nn and (a.mode == 'check' or (time.time() - t0 < a.budget and not res['violations'])):
         tried += 1
         sg = [(1, 1), (1, -1), (-1, 1), (-1, -1)][int(rng.integers(0, 4))]
